@@ -60,17 +60,30 @@ static volatile int g_armed = 0;
 
 /* (kept out of tick(): in the whole-process flavour malloc is called while ASan is still initialising,
  * when instrumented stack frames cannot be used yet) */
+static void* g_exe_base;
 static void __attribute__((noinline)) record_request(long k) {
     SH->nfr[k] = backtrace(SH->fr[k], NFR);
     /* a request made by the OpenMP runtime itself (libgomp): it aborts the process when its own
      * allocation fails, which no caller can prevent - marked so that the check does not fail it */
     SH->rt[k] = 0;
-    for (int i = 0; i < SH->nfr[k]; i++) {
-        Dl_info di;
-        if (dladdr(SH->fr[k][i], &di) && di.dli_fname && strstr(di.dli_fname, "libgomp")) { SH->rt[k] = 1; break; }
+#ifdef EXT_INTERPOSE
+    /* the request is libgomp's own iff libgomp is the direct caller of malloc: the only frames of this
+     * executable below it are record_request, tick and the malloc/calloc/realloc defined here (3).  A
+     * request of the library made inside a parallel region has libgomp further up and more frames below. */
+    {
+        int exe_frames = 0;
+        for (int i = 0; i < SH->nfr[k]; i++) {
+            Dl_info di;
+            if (!dladdr(SH->fr[k][i], &di) || !di.dli_fname) continue;
+            if (di.dli_fbase == g_exe_base) { exe_frames++; continue; }
+            if (exe_frames == 0) continue;                       /* backtrace's own frames */
+            if (strstr(di.dli_fname, "libgomp") && exe_frames <= 3) SH->rt[k] = 1;
+            break;
+        }
     }
+#endif
 }
-static int __attribute__((no_sanitize("address", "undefined"))) tick(void) {
+static int __attribute__((noinline, no_sanitize("address", "undefined"))) tick(void) {
     if (!g_armed || !SH) return 0;
     g_armed = 0;
     long k = ++SH->count;
@@ -116,15 +129,19 @@ static uint64_t fnv(uint64_t h, const void* p, size_t n) {
 }
 #define FNV0 0xCBF29CE484222325ull
 
+static int g_readback = -1;     /* fault-free write: does the file read back to the intended table? */
 static char g_calls[8192]; static size_t g_ncalls; static int g_allok; static int g_nfailed;
 static void rec(const char* api, long st, int ok) {
     if (!ok) { g_allok = 0; g_nfailed++; }
     if (g_ncalls + 40 < sizeof g_calls) g_ncalls += (size_t)snprintf(g_calls + g_ncalls, sizeof g_calls - g_ncalls, "%s%s:%ld", g_ncalls ? "," : "", api, st);
 }
 
-static int type_optional(char t) { return t >= 'A' && t <= 'Z'; }
+/* 'n' / 'm': INT32 / DOUBLE OPTIONAL columns written with def_levels == NULL (legal: every value present) */
+static int type_nolevels(char t) { return t == 'n' || t == 'm'; }
+static int type_optional(char t) { return (t >= 'A' && t <= 'Z') || type_nolevels(t); }
+static char type_base(char t) { return t == 'n' ? 'i' : t == 'm' ? 'd' : (char)(t | 0x20); }
 static carquet_physical_type_t type_phys(char t) {
-    switch (t | 0x20) {
+    switch (type_base(t)) {
         case 'i': return CARQUET_PHYSICAL_INT32; case 'l': return CARQUET_PHYSICAL_INT64;
         case 'd': return CARQUET_PHYSICAL_DOUBLE; case 'f': return CARQUET_PHYSICAL_FLOAT;
         case 'b': return CARQUET_PHYSICAL_BYTE_ARRAY; case 'o': return CARQUET_PHYSICAL_BOOLEAN;
@@ -133,7 +150,7 @@ static carquet_physical_type_t type_phys(char t) {
     }
 }
 static size_t type_size(char t) {
-    switch (t | 0x20) { case 'i': case 'f': return 4; case 'l': case 'd': return 8; case 'b': return sizeof(carquet_byte_array_t);
+    switch (type_base(t)) { case 'i': case 'f': return 4; case 'l': case 'd': return 8; case 'b': return sizeof(carquet_byte_array_t);
                         case 'o': return 1; case 'x': return 8; default: return 4; }
 }
 
@@ -145,6 +162,33 @@ static int parse_tspec(tspec_t* f, int t0, const char* tag) {
     f->ncols = (int)strlen(f->types);
     snprintf(f->path, sizeof f->path, "%s/%s_c%d_%s_%d_%d_%d_%d.parquet", f->dir, tag, f->codec, f->types, f->nrg, f->npages, f->rpp, (int)getpid());
     return t0 + 6;
+}
+
+/* the intended table: values (dense) and definition levels of page p of row group g of column c */
+static int gen_page(const tspec_t* f, int g, int p, int c, uint8_t* vals, int16_t* def, char* strs) {
+    int rpp = f->rpp;
+    char t = f->types[c]; int opt = type_optional(t); size_t vs = type_size(t); int nv = 0;
+                for (int r = 0; r < rpp; r++) {
+                    uint64_t row = ((uint64_t)g * (uint64_t)f->npages + (uint64_t)p) * (uint64_t)rpp + (uint64_t)r;
+                    uint64_t x = splitmix(77ull * 1000003ull + (uint64_t)c * 7919ull + row * 31ull);
+                    int present = !opt || type_nolevels(t) || (x % 4) != 0;
+                    def[r] = present ? 1 : 0;
+                    if (!present) continue;
+                    uint64_t v = splitmix(x);
+                    switch (type_base(t)) {
+                        case 'i': { int32_t y = (int32_t)(v % 1000u) + c * 100000; memcpy(vals + vs * nv, &y, 4); break; }
+                        case 'f': { float y = (float)(v % 4096u) + (float)c * 0.5f; memcpy(vals + vs * nv, &y, 4); break; }
+                        case 'l': { int64_t y = (int64_t)(v % 100000u) + (int64_t)c * 1000000000ll; memcpy(vals + vs * nv, &y, 8); break; }
+                        case 'd': { double y = (double)(v % 65536u) / 4.0 + (double)c; memcpy(vals + vs * nv, &y, 8); break; }
+                        case 'o': { vals[nv] = (uint8_t)(v & 1); break; }
+                        case 'x': { memcpy(vals + vs * nv, &v, 8); break; }
+                        case 'b': { carquet_byte_array_t ba; char* s = strs + 24 * nv;
+                                    int L = snprintf(s, 24, "c%d-%llu", c, (unsigned long long)(v % 100000u));
+                                    ba.data = (uint8_t*)s; ba.length = L; memcpy(vals + vs * nv, &ba, sizeof ba); break; }
+                    }
+                    nv++;
+                }
+    return nv;
 }
 
 /* Build the schema and write the table.  armed: count/fail allocation requests inside API calls.
@@ -161,7 +205,7 @@ static int do_write(const tspec_t* f, int armed, int after_close) {
         char name[16]; snprintf(name, sizeof name, "c%d", c);
         if (armed) ARM();
         carquet_status_t st = carquet_schema_add_column(sc, name, type_phys(f->types[c]), NULL,
-            type_optional(f->types[c]) ? CARQUET_REPETITION_OPTIONAL : CARQUET_REPETITION_REQUIRED, (f->types[c] | 0x20) == 'x' ? 8 : 0);
+            type_optional(f->types[c]) ? CARQUET_REPETITION_OPTIONAL : CARQUET_REPETITION_REQUIRED, type_base(f->types[c]) == 'x' ? 8 : 0);
         DISARM();
         rec("ac", st, st == CARQUET_OK);
         if (st != CARQUET_OK) { if (armed) ARM(); carquet_schema_free(sc); DISARM(); return 1; }
@@ -181,29 +225,10 @@ static int do_write(const tspec_t* f, int armed, int after_close) {
     for (int g = 0; g < f->nrg && !bad; g++) {
         for (int p = 0; p < f->npages && !bad; p++) {
             for (int c = 0; c < f->ncols && !bad; c++) {
-                char t = f->types[c]; int opt = type_optional(t); size_t vs = type_size(t); int nv = 0;
-                for (int r = 0; r < rpp; r++) {
-                    uint64_t row = ((uint64_t)g * (uint64_t)f->npages + (uint64_t)p) * (uint64_t)rpp + (uint64_t)r;
-                    uint64_t x = splitmix(77ull * 1000003ull + (uint64_t)c * 7919ull + row * 31ull);
-                    int present = !opt || (x % 4) != 0;
-                    def[r] = present ? 1 : 0;
-                    if (!present) continue;
-                    uint64_t v = splitmix(x);
-                    switch (t | 0x20) {
-                        case 'i': { int32_t y = (int32_t)(v % 1000u) + c * 100000; memcpy(vals + vs * nv, &y, 4); break; }
-                        case 'f': { float y = (float)(v % 4096u) + (float)c * 0.5f; memcpy(vals + vs * nv, &y, 4); break; }
-                        case 'l': { int64_t y = (int64_t)(v % 100000u) + (int64_t)c * 1000000000ll; memcpy(vals + vs * nv, &y, 8); break; }
-                        case 'd': { double y = (double)(v % 65536u) / 4.0 + (double)c; memcpy(vals + vs * nv, &y, 8); break; }
-                        case 'o': { vals[nv] = (uint8_t)(v & 1); break; }
-                        case 'x': { memcpy(vals + vs * nv, &v, 8); break; }
-                        case 'b': { carquet_byte_array_t ba; char* s = strs + 24 * nv;
-                                    int L = snprintf(s, 24, "c%d-%llu", c, (unsigned long long)(v % 100000u));
-                                    ba.data = (uint8_t*)s; ba.length = L; memcpy(vals + vs * nv, &ba, sizeof ba); break; }
-                    }
-                    nv++;
-                }
+                char t = f->types[c]; int opt = type_optional(t);
+                (void)gen_page(f, g, p, c, vals, def, strs);
                 if (armed) ARM();
-                carquet_status_t st = carquet_writer_write_batch(w, c, vals, rpp, opt ? def : NULL, NULL);
+                carquet_status_t st = carquet_writer_write_batch(w, c, vals, rpp, (opt && !type_nolevels(t)) ? def : NULL, NULL);
                 DISARM();
                 rec("wb", st, st == CARQUET_OK);
                 if (st != CARQUET_OK) bad = 1;
@@ -277,7 +302,7 @@ static uint64_t hash_page(uint64_t h, char t, const void* values, const int16_t*
     int64_t nn = n;
     if (type_optional(t) && def) { nn = 0; for (int64_t i = 0; i < n; i++) if (def[i] == 1) nn++; h = fnv(h, def, (size_t)n * 2); }
     h = fnv(h, &n, sizeof n);
-    if ((t | 0x20) == 'b') {
+    if (type_base(t) == 'b') {
         const carquet_byte_array_t* ba = (const carquet_byte_array_t*)values;
         for (int64_t i = 0; i < nn; i++) { h = fnv(h, &ba[i].length, 4); if (ba[i].length > 0 && ba[i].data) h = fnv(h, ba[i].data, (size_t)ba[i].length); }
     } else h = fnv(h, values, (size_t)nn * type_size(t));
@@ -292,21 +317,32 @@ static int do_read(const tspec_t* f, const char* path, const char* mode, int arm
     int bad = 0;
     int rpp = f->rpp;
     uint8_t* vals = __real_malloc(16 * (size_t)rpp); int16_t* def = __real_malloc(2 * (size_t)rpp);
-    for (int g = 0; g < f->nrg && !bad; g++) {
-        for (int c = 0; c < f->ncols && !bad; c++) {
+    for (int g = 0; g < f->nrg; g++) {
+        for (int c = 0; c < f->ncols; c++) {
             carquet_error_t err = CARQUET_ERROR_INIT;
             if (armed) ARM();
             carquet_column_reader_t* cr = carquet_reader_get_column(o.r, g, c, &err);
             DISARM();
-            rec("gc", cr ? 0 : (long)err.code, cr != NULL);
-            if (!cr) { bad = 1; break; }
+            rec(bad ? "gc_after_error" : "gc", cr ? 0 : (long)err.code, bad || cr != NULL);
+            if (!cr) { bad = 1; continue; }
             for (int p = 0; p < f->npages + 1; p++) {
                 if (armed) ARM();
                 int64_t n = carquet_column_read_batch(cr, vals, rpp, type_optional(f->types[c]) ? def : NULL, NULL);
                 DISARM();
                 int expect = p < f->npages ? rpp : 0;
                 rec("rb", (long)n, n == expect);
-                if (n != expect) { bad = 1; break; }
+                if (n != expect) {
+                    /* the handle stays in use after a failed call: ask again (twice), then go on with the
+                     * next column; nothing is judged about the values any more, only crash / leak */
+                    bad = 1;
+                    for (int again = 0; again < 2; again++) {
+                        if (armed) ARM();
+                        int64_t n2 = carquet_column_read_batch(cr, vals, rpp, type_optional(f->types[c]) ? def : NULL, NULL);
+                        DISARM();
+                        rec("rb_again", (long)n2, 1);
+                    }
+                    break;
+                }
                 if (n > 0) *eff = hash_page(*eff, f->types[c], vals, def, n);
             }
             if (armed) ARM();
@@ -341,7 +377,30 @@ static int do_batch(const tspec_t* f, const char* path, const char* mode, int ar
         int expect_end = (i == total);
         int ok = expect_end ? (st == CARQUET_ERROR_END_OF_DATA) : (st == CARQUET_OK && b != NULL);
         rec("bn", st, ok);
-        if (!ok) { bad = 1; if (b) { if (armed) ARM(); carquet_row_batch_free(b); DISARM(); } break; }
+        if (!ok) {
+            /* keep using the batch reader after a failed call: further batches until it ends or 4 more calls */
+            bad = 1; if (b) { if (armed) ARM(); carquet_row_batch_free(b); DISARM(); }
+            for (int again = 0; again < 4 && st != CARQUET_ERROR_END_OF_DATA; again++) {
+                b = NULL;
+                if (armed) ARM();
+                st = carquet_batch_reader_next(br, &b);
+                DISARM();
+                rec("bn_again", st, 1);
+                if (b) {
+                    /* touch what an OK batch hands out */
+                    int64_t rows = carquet_row_batch_num_rows(b); uint64_t hh = FNV0;
+                    for (int c = 0; c < f->ncols && st == CARQUET_OK; c++) {
+                        const void* data; const uint8_t* nb; int64_t nv;
+                        if (carquet_row_batch_column(b, c, &data, &nb, &nv) == CARQUET_OK && data && nv > 0 && type_base(f->types[c]) != 'b' && !type_optional(f->types[c]))
+                            hh = fnv(hh, data, (size_t)nv * type_size(f->types[c]));
+                        if (nb && nv > 0) hh = fnv(hh, nb, (size_t)((nv + 7) / 8));
+                    }
+                    (void)rows; (void)hh;
+                    if (armed) ARM(); carquet_row_batch_free(b); DISARM();
+                }
+            }
+            break;
+        }
         if (b) {
             int64_t rows = carquet_row_batch_num_rows(b);
             *eff = fnv(*eff, &rows, sizeof rows);
@@ -355,7 +414,7 @@ static int do_batch(const tspec_t* f, const char* path, const char* mode, int ar
                 if (nb && nv > 0) { *eff = fnv(*eff, nb, (size_t)((nv + 7) / 8));
                                     if (type_optional(t)) { nn = 0; for (int64_t j = 0; j < nv; j++) if (!((nb[j / 8] >> (j % 8)) & 1)) nn++; } }
                 if (data && nv > 0) {
-                    if ((t | 0x20) == 'b') { const carquet_byte_array_t* ba = data;
+                    if (type_base(t) == 'b') { const carquet_byte_array_t* ba = data;
                         for (int64_t j = 0; j < nn; j++) { *eff = fnv(*eff, &ba[j].length, 4); if (ba[j].length > 0 && ba[j].data) *eff = fnv(*eff, ba[j].data, (size_t)ba[j].length); } }
                     else *eff = fnv(*eff, data, (size_t)nn * type_size(t));
                 } else if (nv > 0) *eff = fnv(*eff, "nodata", 6);
@@ -471,8 +530,8 @@ static void run_child(int t0, long fail_at, int record, child_res* res) {
         uint64_t eff = 0; long fsize = -1;
         int bad = run_scenario(t0, 1, &eff, &fsize);
         int leak = __lsan_do_recoverable_leak_check();
-        printf("calls=%s ok=%d eff=%016llx fsize=%ld leak=%d reqs=%ld hit=%d", g_calls[0] ? g_calls : "-", (!bad && g_allok) ? 1 : 0,
-               (unsigned long long)eff, fsize, leak ? 1 : 0, SH->count, SH->failed_seen);
+        printf("calls=%s ok=%d eff=%016llx fsize=%ld leak=%d reqs=%ld hit=%d rb=%d", g_calls[0] ? g_calls : "-", (!bad && g_allok) ? 1 : 0,
+               (unsigned long long)eff, fsize, leak ? 1 : 0, SH->count, SH->failed_seen, g_readback);
         fflush(stdout);
         _exit(0);
     }
@@ -500,6 +559,20 @@ static void run_child(int t0, long fail_at, int record, child_res* res) {
     for (char* c = res->out; *c; c++) if (*c == '\n' || *c == '|') *c = ' ';
 }
 
+static int do_read(const tspec_t* f, const char* path, const char* mode, int armed, uint64_t* eff);
+static uint64_t hash_page(uint64_t h, char t, const void* values, const int16_t* def, int64_t n);
+/* hash of the intended table in the order do_read visits it */
+static uint64_t intended_hash(const tspec_t* f) {
+    uint64_t h = FNV0;
+    int16_t* def = __real_malloc(sizeof(int16_t) * (size_t)f->rpp);
+    uint8_t* vals = __real_malloc(16 * (size_t)f->rpp); char* strs = __real_malloc(24 * (size_t)f->rpp);
+    for (int g = 0; g < f->nrg; g++) for (int c = 0; c < f->ncols; c++) for (int p = 0; p < f->npages; p++) {
+        gen_page(f, g, p, c, vals, def, strs);
+        h = hash_page(h, f->types[c], vals, def, f->rpp);
+    }
+    free(def); free(vals); free(strs);
+    return h;
+}
 static char g_scen_path[700];
 static int run_scenario(int t0, int armed, uint64_t* eff, long* fsize) {
     const char* kind = h_tok[t0];
@@ -512,6 +585,14 @@ static int run_scenario(int t0, int armed, uint64_t* eff, long* fsize) {
         remove(f.path);
         int bad = do_write(&f, armed, after_close);
         *eff = file_hash(f.path, fsize);
+        if (!bad && SH->fail_at == 0) {
+            /* fault-free run: the file must read back (no faults injected) to the intended table; the runs
+             * with a failing request are then compared with this file byte for byte */
+            uint64_t got = 0; size_t keep = g_ncalls; int ok = g_allok;
+            int rb = do_read(&f, f.path, "fread", 0, &got);
+            g_ncalls = keep; g_calls[keep] = 0; g_allok = ok;
+            g_readback = (!rb && got == intended_hash(&f)) ? 1 : 0;
+        }
         remove(f.path);
         return bad;
     }
@@ -599,6 +680,7 @@ int main(void) {
     { void* tmp[4]; (void)backtrace(tmp, 4); }   /* let libgcc load its unwinder now */
     Dl_info di; uintptr_t base = 0;
     if (dladdr((void*)&main, &di)) base = (uintptr_t)di.dli_fbase;
+    g_exe_base = (void*)base;
     while (h_readline()) {
         h_split();
         if (h_ntok < 2) { puts("ERR empty"); fflush(stdout); continue; }
